@@ -14,9 +14,9 @@ from gen import Gen
 from common import cerberus, real_error, canon_errors
 import cerberus.schema as cschema
 
-LEVEL = "exploration"
-COQ_FILES = []
-FACT_GROUPS = []
+LEVEL = "proof"
+COQ_FILES = ["theories/Model/Threads.v", "theories/Proofs/ThreadsProofs.v", "theories/Properties/C18.v"]
+FACT_GROUPS = ["F21"]
 ALLOWED_AXIOMS = []
 TRUSTED_BASE = [
     "Coq 8.16.1 kernel; Print Assumptions: closed under the global context",
